@@ -10,7 +10,9 @@ from .. import core, hyp, model, progs, reps
 
 mpmath.mp.dps = 60
 PRELUDE = '#include "au/magnitude.hh"\n#include <cstdint>\n#include <limits>\n#include <type_traits>\nusing au::pow; using au::root;\n'
-PRIMES = [2, 3, 5, 7, 11, 13, 127, 8191, 65537, 2147483647, 2305843009213693951, 9223372036854775837, 18446744073709551557]
+# incl. primes well above 2^63 for which the Lucas half of the primality test takes a NEGATIVE Selfridge parameter (2^64-95, 3*2^62+17, 5*2^61+9)
+PRIMES = [2, 3, 5, 7, 11, 13, 127, 8191, 65537, 2147483647, 2305843009213693951, 9223372036854775837, 18446744073709551557,
+          18446744073709551521, 13835058055282163729, 11529215046068469769]
 EXPS = [(1, 1), (2, 1), (3, 1), (-1, 1), (-2, 1), (7, 1), (8, 1), (15, 1), (16, 1), (31, 1), (32, 1), (63, 1), (64, 1), (-63, 1), (100, 1), (-100, 1),
         (127, 1), (128, 1), (-126, 1), (-149, 1), (-150, 1), (400, 1), (-400, 1), (1023, 1), (1024, 1), (-1074, 1), (-1075, 1), (5000, 1), (-5000, 1),
         (16383, 1), (16384, 1), (-16445, 1), (-16446, 1), (1, 2), (1, 3), (3, 2), (-1, 2), (2, 3), (5, 2)]
@@ -87,7 +89,7 @@ def near_limit(draw, T):
         mx = reps.rmax(T)
         odd = 1
         for _ in range(draw(st.integers(0, 3))):
-            p = draw(st.sampled_from(SMALL + [2147483647, 2305843009213693951, 9223372036854775837, 18446744073709551557]))
+            p = draw(st.sampled_from(SMALL + [2147483647, 2305843009213693951, 9223372036854775837, 18446744073709551557, 13835058055282163729]))
             if odd * p <= mx:
                 odd *= p
         k = 0
@@ -257,7 +259,7 @@ def grid():
         for v in (mx, mx - 1):
             f = reps.factorint(v)
             out.append({"kind": "value", "m": [[str(p), e, 1] for p, e in f.items()], "T": T})
-        for p in (9223372036854775837, 18446744073709551557):
+        for p in (9223372036854775837, 18446744073709551557, 18446744073709551521, 13835058055282163729):
             out.append({"kind": "value", "m": [[str(p), 1, 1]], "T": T})
         out.append({"kind": "value", "m": [["2", 1, 2]], "T": T})
         out.append({"kind": "value", "m": [["2", -1, 1]], "T": T})
